@@ -226,7 +226,7 @@ func c05Spec() propSpec {
 		profile: genProfile{
 			w:              map[string]int{"ph": 3, "vote": 12, "round": 3, "sment": 1, "smact": 1, "stall": 1, "read": 1, "conc": 2},
 			phVariants:     []int{phFresh, phFresh, phAltNext, phBadSig, phAnnotated},
-			pcpVariants:    []int{pcpExact, pcpExact, pcpExact, pcpCorruptSig, pcpBelowQuorum, pcpWrongPKH},
+			pcpVariants:    []int{pcpExact, pcpExact, pcpExact, pcpCorruptSig, pcpBelowQuorum, pcpWrongPKH, pcpOtherRoundCert, pcpOtherRoundCert, pcpExtraNil},
 			voteCorr:       allVariants(vcVariants),
 			replayVariants: []int{rvHonest},
 			pkhVariants:    []int{0, 0, 0, 0, 0, 1, 2},
@@ -716,6 +716,10 @@ func c04Oracle(s *sim, op Op, idx int) {
 	s.c04View = [2]uint64{s.vv.Height, uint64(s.vv.Round)}
 	if !(s.cv.Height == 0 && s.vv.Height == s.w.init) && s.cv.Height+1 != s.vv.Height {
 		s.failf("", "voting-not-committing-plus-one", "views: voting height %d, committing height %d", s.vv.Height, s.cv.Height)
+		return
+	}
+	if err == nil && (vh != s.vv.Height || vr != s.vv.Round || chh != s.cv.Height || (s.cv.Height > 0 && chr != s.cv.Round)) {
+		s.failf("", "stored-position-stale", "at quiescence the mirror store records voting %d/%d committing %d/%d but the views are at voting %d/%d committing %d/%d", vh, vr, chh, chr, s.vv.Height, s.vv.Round, s.cv.Height, s.cv.Round)
 		return
 	}
 	if s.cv.Height > 0 && top != s.cv.Height {
